@@ -154,7 +154,7 @@ int cp_rabin_dec(uint8_t *out, size_t *out_len, const uint8_t *in,
 	int result = RLC_OK;
 	uint8_t pad;
 
-	if (in_len < RABIN_PAD_LEN) {
+	if (in_len < RABIN_PAD_LEN || in_len != (size_t)bn_size_bin(prv->n)) {
 		return RLC_ERR;
 	}
 
